@@ -579,6 +579,18 @@ def applyUpdated (n index : Nat) : List (Nat × Nat) → List Item → Option (L
          | some it => items.set (index + i) { it with pn := pn }
          | none => items)                                   -- the slot of an item pushed later: overwritten by its push
 
+/-- the prefix of the node under construction comes from the first key pushed (`fk`: the first key of the chunk, if
+nothing has been pushed yet) -/
+def Bld.firstKey (b : Bld) (fk : Nat) : Nat :=
+  match b.items.head? with
+  | some x => x.key
+  | none => fk
+
+/-- the cells, node pointers and page-number updates of `push_chunk` for the already converted items `its` -/
+def Bld.addChunk (b : Bld) (its : List Item) (updated : List (Nat × Nat)) : Option Bld :=
+  if 65535 < slenSum (b.items ++ its) then none            -- `u16::try_from(cell_pointer).unwrap()`
+  else (applyUpdated b.n b.index updated (b.items ++ its)).map fun items' => { b with items := items' }
+
 /-- `push_chunk(base, from, to, updated)` -/
 def Bld.pushChunk (kf : KF) (b : Bld) (base : Node) (f t : Nat) (updated : List (Nat × Nat)) : Option Bld :=
   if t < f then none                                        -- `to - from`
@@ -590,13 +602,9 @@ def Bld.pushChunk (kf : KF) (b : Bld) (base : Node) (f t : Nat) (updated : List 
     match base.key f with
     | none => none
     | some fk =>
-      let first := match b.items.head? with | some x => x.key | none => fk
-      match chunkItems kf b base first (slice base.items f t) with
+      match chunkItems kf b base (b.firstKey fk) (slice base.items f t) with
       | none => none
-      | some its =>
-        let items := b.items ++ its
-        if 65535 < slenSum items then none                  -- `u16::try_from(cell_pointer).unwrap()`
-        else (applyUpdated b.n b.index updated items).map fun items' => { b with items := items' }
+      | some its => b.addChunk its updated
 
 /-- `finish()`; `none`: fewer / more pushes than `n` -/
 def Bld.finish (b : Bld) : Option Node :=
@@ -613,12 +621,17 @@ def pushRange (kf : KF) (base : Base) : (cnt pos : Nat) → Bld → Option Bld
       | none => none
       | some b' => pushRange kf base cnt (pos + 1) b'
 
+/-- `ops[ops_range].iter().filter_map(..)`: the `(pos - base_range.start, pn)` of the `Update`s -/
+def updsOf (s : Nat) : List Op → List (Nat × Nat)
+  | [] => []
+  | .upd pos pn :: r => (pos - s, pn) :: updsOf s r
+  | _ :: r => updsOf s r
+
 /-- the closure `apply_chunk(builder, base_range, ops_range)` of `build_branch` -/
 def applyChunk (kf : KF) (base : Base) (g : Gauge) (b : Bld) (s e : Nat) (acc : List Op) : Option Bld :=
   let nLeft := g.pcItems - b.index
   let cEnd := min (s + nLeft) e
-  let updated := acc.filterMap fun op => match op with | .upd pos pn => some (pos - s, pn) | _ => none
-  match b.pushChunk kf base.node s cEnd updated with
+  match b.pushChunk kf base.node s cEnd (updsOf s acc) with
   | none => none
   | some b1 => pushRange kf base (e - cEnd) cEnd b1
 
